@@ -540,6 +540,14 @@ func (fr *Frame) tr(e ast.Expr, env *Env) Val {
 			hi = fr.tr(x.High, env).T
 		}
 		return Val{fmt.Sprintf("(substr %s %s %s)", s.T, lo, hi), types.Typ[types.String]}
+	case *ast.StarExpr:
+		// *sb for sb *strings.Builder: the text the builder holds
+		pv := fr.tr(x.X, env)
+		if pt, ok := pv.Typ.Underlying().(*types.Pointer); ok && isBuilder(pt.Elem()) {
+			_, arr := c.elemHeap(env.st, pt.Elem())
+			return Val{fmt.Sprintf("(%s %s (mk-slice %s 0 1) 0)", c.eltFn(pt.Elem()), arr, pv.T), types.Typ[types.String]}
+		}
+		panic("contract expression: only a *strings.Builder can be dereferenced")
 	case *ast.UnaryExpr:
 		v := fr.tr(x.X, env)
 		switch x.Op {
@@ -756,6 +764,11 @@ func (fr *Frame) tr(e ast.Expr, env *Env) Val {
 				as = append(as, v.T)
 			}
 			return Val{fmt.Sprintf("(%s %s)", sym, strings.Join(as, " ")), rt}
+		}
+		if fn.Name == "bslice" {
+			pv := fr.tr(x.Args[0], env)
+			pt := pv.Typ.Underlying().(*types.Pointer)
+			return Val{fmt.Sprintf("(mk-slice %s 0 1)", pv.T), types.NewSlice(pt.Elem())}
 		}
 		if fn.Name == "seq" {
 			v := fr.tr(x.Args[0], env)
